@@ -24,4 +24,10 @@ CLAIMED = {
               "mount, and Sub views; after every step the tree invariants I1-I5 are evaluated on every constituent file system over all 121 candidate paths, not only those listings reveal. Sampled exploration."),
         note="termination is observed as 'returned within the watchdog' (twice); removing/renaming the root of a Sub view is not generated; RemoveAll above a mount point is excluded while known finding C03:removeall-above-mountpoint reproduces",
     ),
+    "C05": dict(
+        technique="state-machine property testing with rapid; differential oracle on error values (type, path fields, sentinel set) = raw os package on a twin tmpfs tree; 11 layer stacks as subjects",
+        text=("Every failing FS-level call of generated histories is compared with the os package's error for the same call on a twin tree: concrete type, path fields in the caller's namespace equal to what os names, "
+              "and every sentinel os matches. Subjects: mem, keyvalue/plain store, os.FS under 1-3 Sub roots, mount.FS with 0/1/2 nested mounts, Sub(mem), Sub(Sub(mem)), Sub(mount) at a mount point. Sampled exploration."),
+        note="Op strings are not compared; for RemoveAll the name passed in is accepted besides the ancestor os names; ErrNotImplemented (unsupported op, e.g. Rename through a generic Sub view) only needs type+path; mount-boundary operations are left to C06",
+    ),
 }
